@@ -15,7 +15,7 @@ import (
 
 func init() {
 	register("c14", "discovery: sequences of 1..6 published server lists (sizes 0..5, metadata over a grammar combining state, repeated group and unrelated keys) "+
-		"through a real MultipleServersDiscovery into a real XClient (fake RPC clients), published back-to-back and with pauses, with fresh KVPair objects or with the publisher's own objects edited in place and republished, under GOMAXPROCS in {1,2,16}, "+
+		"through a real MultipleServersDiscovery into a real XClient (fake RPC clients; also 4..16 XClients sharing one discovery with long unordered lists), published back-to-back and with pauses, with fresh KVPair objects or with the publisher's own objects edited in place and republished, under GOMAXPROCS in {1,2,16}, "+
 		"for every selection strategy in {random, round-robin, weighted, hash} and client group settings; after quiescence the set of servers that actually "+
 		"receive calls must equal filter(last published list); the filter itself is compared with the Lean model on grammar-generated metadata; "+
 		"non-trivial = at least two updates with different server sets; distinct = distinct input line",
@@ -118,8 +118,106 @@ func hexAll(ss []string) []string {
 	return out
 }
 
+// c14Shared: several clients share ONE discovery (XClient.Clone, OneClient pools, or simply
+// one discovery object handed to many NewXClient calls) and the publisher's lists are long and
+// unordered.  Every client must converge to exactly the last published set.
+func c14Shared(o *Out, r *rand.Rand) {
+	rounds := 6
+	if thorough() {
+		rounds = 40
+	}
+	for round := 0; round < rounds; round++ {
+		nClients := 4 + r.Intn(13)
+		n := []int{40, 150, 300, 600}[r.Intn(4)]
+		sc := &fakeScenario{perAddr: map[string]fakeOutcome{}}
+		for i := 0; i < nClients*(2*n+150); i++ {
+			sc.dials = append(sc.dials, true)
+		}
+		setScenario(sc)
+		d, _ := client.NewMultipleServersDiscovery([]*client.KVPair{{Key: "fake@seed"}})
+		opt := client.DefaultOption
+		opt.Retries = 0
+		var xcs []client.XClient
+		for k := 0; k < nClients; k++ {
+			xcs = append(xcs, client.NewXClient("Svc", client.Failfast, client.RoundRobin, d, opt))
+		}
+		var last []*client.KVPair
+		updates := 1 + r.Intn(3)
+		for u := 0; u < updates; u++ {
+			last = nil
+			for _, i := range r.Perm(n) {
+				last = append(last, &client.KVPair{Key: fmt.Sprintf("fake@u%d-%d", u, i)})
+			}
+			d.Update(last)
+		}
+		time.Sleep(30 * time.Millisecond)
+		want := map[string]bool{}
+		for i := 0; i < n; i++ {
+			want[fmt.Sprintf("fake@u%d-%d", updates-1, i)] = true
+		}
+		// wait (up to 2 s) until every client has at least switched to the last update's servers
+		for deadline := time.Now().Add(2 * time.Second); time.Now().Before(deadline); {
+			settled := true
+			for _, xc := range xcs {
+				reply := &fakeReply{}
+				if err := xc.Call(context.Background(), "M", 0, reply); err != nil || !want[reply.Addr] {
+					settled = false
+				}
+			}
+			if settled {
+				break
+			}
+			time.Sleep(20 * time.Millisecond)
+		}
+		rp := map[string]any{"clients_sharing_one_discovery": nClients, "servers_per_list": n, "updates": updates, "published_order": "random permutation"}
+		o.Eval(fmt.Sprintf("shared %v", rp), true)
+		o.Count("shared-discovery.rounds")
+		bad := ""
+		for ci, xc := range xcs {
+			got := map[string]int{}
+			for i := 0; i < 2*n; i++ {
+				reply := &fakeReply{}
+				if err := xc.Call(context.Background(), "M", i, reply); err == nil {
+					got[reply.Addr]++
+				}
+			}
+			missing, foreign := 0, 0
+			for a := range want {
+				if got[a] == 0 {
+					missing++
+				}
+			}
+			for a := range got {
+				if !want[a] {
+					foreign++
+				}
+			}
+			if missing > 0 || foreign > 0 {
+				bad = fmt.Sprintf("client %d of %d reaches %d servers: %d of the last published list never selected under round-robin, %d selected that are not in it", ci, nClients, len(got), missing, foreign)
+				break
+			}
+		}
+		// the publisher's own list must still be what it published
+		seen := map[string]bool{}
+		for _, p := range last {
+			seen[p.Key] = true
+		}
+		if bad == "" && len(seen) != n {
+			bad = fmt.Sprintf("the publisher's own slice now holds %d distinct servers of the %d it published", len(seen), n)
+		}
+		for _, xc := range xcs {
+			xc.Close()
+		}
+		if bad != "" {
+			o.Violate("c14.shared-discovery.server-set", "after the last update was applied: "+bad, rp)
+			return
+		}
+	}
+}
+
 func runC14(o *Out, r *rand.Rand) {
 	c14Filter(o, r)
+	c14Shared(o, r)
 	n := 40
 	if thorough() {
 		n = 400
@@ -240,18 +338,40 @@ func c14Converge(o *Out, r *rand.Rand, mode client.SelectMode, procs int) {
 			want[p.Key] = true
 		}
 	}
-	// which servers actually receive calls now?
-	got := map[string]bool{}
+	// which servers actually receive calls now?  "once updates stop" has no deadline in the
+	// property: a mismatch is re-observed for up to two seconds before it is judged (the watcher
+	// goroutine may simply not have run yet on a busy machine)
+	var got map[string]bool
 	ncalls := 12 * (len(last) + 1)
 	noServer := 0
-	for i := 0; i < ncalls; i++ {
-		reply := &fakeReply{}
-		err := xc.Call(context.Background(), "M", i, reply)
-		if err == nil {
-			got[reply.Addr] = true
-		} else if err == client.ErrXClientNoServer {
-			noServer++
+	observe := func() bool {
+		got = map[string]bool{}
+		noServer = 0
+		for i := 0; i < ncalls; i++ {
+			reply := &fakeReply{}
+			err := xc.Call(context.Background(), "M", i, reply)
+			if err == nil {
+				got[reply.Addr] = true
+			} else if err == client.ErrXClientNoServer {
+				noServer++
+			}
 		}
+		for a := range got {
+			if !want[a] {
+				return false
+			}
+		}
+		if mode == client.RoundRobin {
+			for a := range want {
+				if !got[a] {
+					return false
+				}
+			}
+		}
+		return !(len(want) == 0 && noServer != ncalls)
+	}
+	for deadline := time.Now().Add(2 * time.Second); !observe() && time.Now().Before(deadline); {
+		time.Sleep(20 * time.Millisecond)
 	}
 	var hist []string
 	for _, l := range lists {
